@@ -13,14 +13,18 @@ from harness import c01 as H1
 
 RULE = ('FFT cases: every shape in {1..9}^2 (all parity pairs, square and not) plus a few up to 24x17, Q in {1,2,3,1.5,2.37,1.2}, '
         'complex (70%) / real input, float64 (85%) / float32 configuration: energy of focus/unfocus/pad2d, unfocus(focus)=id, '
-        'focus(unfocus)=id, Wavefront.focus/unfocus; band-complete cases: (m,Qy) and (n,Qx) drawn from all pairs with m*Q integer, '
+        'focus(unfocus)=id, unfocus(focus(f,Q),1)=pad2d(f,Q), Wavefront.focus (given and DEFAULT Q) / unfocus incl. space and dx '
+        'round trip; band-complete cases: (m,Qy) and (n,Qx) drawn from all pairs with m*Q integer, '
         'Q in {1,1.5,2,2.5,3,4/3,5/3,1.25}, shifts from {0,+-1,+-2.5,(1.5,-2.25)}: energy and idft2(dft2)=id / iczt2(czt2)=id; '
         'free-space cases: shapes as above, wavelength in [0.4,2] um (= lambda/1000 mm), dx (mm) log-uniform within one of four '
         'regimes relative to the wavelength: sub-wavelength lambda/40..lambda/2 (30%, the sampled band reaches beyond 1/lambda), '
         'lambda/2..4 lambda (15%), ordinary 0.01..1 mm (40%), coarse 1..200 mm (15%); z of both signs, zero (12%), well conditioned '
-        '(largest phase on the band 0.01..300 rad) or large (300..1e6 rad); Q in {1,2}: |H| = 1 at every sample of the transfer '
+        '(largest phase on the band 0.01..300 rad) or large (300..1e6 rad); Q in {1,1.5,2,3} and the function DEFAULT (Q=2); samples '
+        'given as tuple/list/int/np.int64: |H| = 1 at every sample of the transfer '
         'function, energy, identity at z=0, inverse at -z, additivity in z (tolerance widened by 16 eps x largest phase), '
-        'Wavefront.free_space. '
+        'the precomputed tf= branch of angular_spectrum and of Wavefront.free_space (with nonsense for the clobbered arguments), '
+        'Wavefront.free_space(dz, Q) incl. the returned object; the literal "A_0 f == f" is evaluated for every Q and is filtered as '
+        'the known finding asp-pads-never-crops exactly when the output equals pad2d(f, Q). '
         'Non-trivial = not 1x1; distinct = distinct (item, input) tuples')
 ASSUMPTIONS = ['scipy.fft.fft2/ifft2 compute the iterated 1-D DFT sums (1/(MN) on the inverse, 1/sqrt(MN) with norm=ortho); '
                'fftfreq(n,d)[k] = (k if k < (n+1)//2 else k-n)/(n d) (modelled; compared every run)',
@@ -47,7 +51,12 @@ def eclose(a, b, tol):
 
 def tols(c):
     low = c.get('precision', 64) == 32 or c.get('dtype') in ('complex64', 'float32')
-    return (ETOL32, TOL32) if low else (ETOL64, TOL64)
+    if not low:
+        return (ETOL64, TOL64)
+    sizes = [int(np.ceil(x * (c['Q'] if isinstance(c.get('Q'), (int, float)) else 2))) for x in c.get('shape', [1])] \
+        + list(c.get('samples', []))
+    # single precision: array tolerance grows with the axis length and with the largest chirp phase (see harness/c01.py)
+    return (ETOL32, max(H1.tol32(max(sizes)), 8 * 1.2e-7 * H1.phase_max(c)))
 
 
 arr2w, w2arr, close = H1.arr2w, H1.w2arr, H1.close
@@ -144,6 +153,28 @@ def pred_fft(c, verbose=False):
             ok, err = close(back, pad, at)
             if not ok:
                 return False, f'unfocus(focus(f,Q),1) != pad2d(f,Q): max err {err:.3g}', {}
+        # the Wavefront methods: energy, spaces, and the sample spacing must come back after unfocus(focus(.))
+        try:
+            efl, wvl_, dx_ = 123.4, 0.55, 0.731
+            wf = pr.Wavefront(np.asarray(f, dtype=complex), wvl_, dx_, space='pupil')
+            wq = wf.focus(efl, Q=Q)
+            w1 = wf.focus(efl, Q=1)
+            wb = w1.unfocus(efl, Q=1)
+            wd = wf.focus(efl)                     # default Q (= 2)
+        except Exception as ex:
+            return False, f'Wavefront.focus/unfocus raised {type(ex).__name__}: {str(ex)[:160]}', {}
+        ok, rel = eclose(energy(wq.data), E0, et)
+        if not ok or wq.space != 'psf' or wq.data.shape != foc.shape:
+            return False, f'Wavefront.focus(Q={Q}): energy ratio {energy(wq.data) / E0:.12g}, space {wq.space!r}, shape {wq.data.shape}', {}
+        ok, rel = eclose(energy(wd.data), E0, et)
+        if not ok:
+            return False, f'Wavefront.focus() with its default Q changes the energy by a factor {energy(wd.data) / E0:.12g}', {}
+        ok, err = close(wb.data, np.asarray(f, dtype=complex), at)
+        if verbose:
+            print(f'  Wavefront: max |unfocus(focus(wf)) - wf| = {err:.3g}; dx {dx_} -> {w1.dx:.6g} -> {wb.dx:.6g}')
+        if not ok or wb.space != 'pupil' or abs(wb.dx - dx_) > 1e-12 * dx_ or wb.wavelength != wvl_:
+            return False, (f'Wavefront.unfocus(Wavefront.focus(wf, Q=1), Q=1) != wf: max err {err:.3g}, space {wb.space!r}, '
+                           f'dx {wb.dx!r} (was {dx_})'), {}
         return True, '', {'focus': foc, 'unfocus': unf, 'pad': pad}
     finally:
         config.precision = 64
@@ -182,28 +213,70 @@ def pred_band(c, verbose=False):
         config.precision = 64
 
 
+KNOWN = {}
+
+
+def _asp_call(pr, f, wvl, dx, z, Q):
+    """Q == 'default' exercises the function's own default argument"""
+    return pr.angular_spectrum(f, wvl, dx, z) if Q == 'default' else pr.angular_spectrum(f, wvl, dx, z, Q=Q)
+
+
+def asp_known_pads(c):
+    """exact description of the known finding `asp-pads-never-crops`: with Q != 1 (the default is Q = 2) angular_spectrum
+    returns the field on the zero-padded grid, so at z = 0 the result is pad2d(f, Q) (not f).  True iff THIS case shows exactly
+    that and nothing else (same values as pad2d(f, Q) to tolerance)."""
+    ft, pr, config = _impl()
+    if c['Q'] == 1:
+        return False
+    f = make_input(c['shape'], c['dtype'], c['seed'])
+    Qn = 2 if c['Q'] == 'default' else c['Q']
+    a0 = _asp_call(pr, f, c['wvl'], c['dx'], 0.0, c['Q'])
+    want = ft.pad2d(f, Q=Qn)
+    return a0.shape == want.shape and a0.shape != f.shape and close(a0, want, tols(c)[1])[0]
+
+
+def _known_witness():
+    c = {'shape': [4, 6], 'Q': 'default', 'wvl': 0.6328, 'dx': 0.05, 'z': 1.0, 'z2': 0.5, 'dtype': 'complex128',
+         'precision': 64, 'seed': 3}
+    return asp_known_pads(c)
+
+
+KNOWN['asp-pads-never-crops'] = {'witness': _known_witness}
+
+
 def pred_asp(c, verbose=False):
+    """free space.  extras['known'] counts literal checks skipped because they are exactly the known finding"""
     ft, pr, config = _impl()
     et, at = tols(c)
     f = make_input(c['shape'], c['dtype'], c['seed'])
     wvl, dx, z, z2, Q = c['wvl'], c['dx'], c['z'], c['z2'], c['Q']
+    Qn = 2 if Q == 'default' else Q
+    known = 0
     config.precision = c.get('precision', 64)
     try:
         try:
-            shp = ft.pad2d(f, Q=Q).shape if Q != 1 else f.shape
-            tf = pr.angular_spectrum_transfer_function(shp, wvl, dx, z)
-            a = pr.angular_spectrum(f, wvl, dx, z, Q=Q)
-            a0 = pr.angular_spectrum(f, wvl, dx, 0.0, Q=Q)
-            # on the (already padded) grid: inverse and additivity
-            g = ft.pad2d(f, Q=Q) if Q != 1 else f
+            g = ft.pad2d(f, Q=Qn) if Qn != 1 else f          # the grid the propagation works on
+            shp = g.shape
+            sform = c.get('samples_form', 'tuple')
+            samples = {'tuple': tuple(shp), 'list': list(shp), 'npint': np.int64(shp[0]), 'int': int(shp[0])}[
+                sform if (shp[0] == shp[1] or sform in ('tuple', 'list')) else 'tuple']
+            tf = pr.angular_spectrum_transfer_function(samples, wvl, dx, z)
+            a = _asp_call(pr, f, wvl, dx, z, Q)
+            a0 = _asp_call(pr, f, wvl, dx, 0.0, Q)
+            # inverse and additivity on the grid the propagation works on
             b = pr.angular_spectrum(pr.angular_spectrum(g, wvl, dx, z, Q=1), wvl, dx, -z, Q=1)
             s12 = pr.angular_spectrum(pr.angular_spectrum(g, wvl, dx, z2, Q=1), wvl, dx, z, Q=1)
             s = pr.angular_spectrum(g, wvl, dx, z + z2, Q=1)
-            wf = pr.Wavefront(np.asarray(g, dtype=complex), wvl, dx).free_space(dz=z, Q=1)
+            az = pr.angular_spectrum(g, wvl, dx, z, Q=1)
+            # the precomputed-transfer-function branch ("clobbers all other arguments": give it nonsense for them)
+            btf = pr.angular_spectrum(g, wvl * 3, dx * 7, -z - 1.0, Q=5, tf=tf)
+            w0 = pr.Wavefront(np.asarray(f, dtype=complex), wvl, dx)
+            wq = w0.free_space(dz=z, Q=Qn)
+            wt = pr.Wavefront(np.asarray(g, dtype=complex), wvl, dx).free_space(tf=tf)
         except Exception as ex:
             return False, f'raised {type(ex).__name__}: {str(ex)[:160]}', {}
         if tf.shape != tuple(shp):
-            return False, f'transfer function has shape {tf.shape}, field {shp}', {}
+            return False, f'transfer function has shape {tf.shape}, field {tuple(shp)}', {}
         # |H| == 1 at EVERY frequency sample (exp of a purely imaginary number: exact to an ulp whatever the phase)
         um = float(np.abs(np.abs(tf) - 1).max())
         eps = 1.2e-7 if et == ETOL32 else 2.3e-16
@@ -213,23 +286,40 @@ def pred_asp(c, verbose=False):
         if verbose:
             print(f'  dx / lambda = {dx / (wvl / 1e3):.3g}; max phase on the band {phase:.3g} rad; max ||tf|-1| = {um:.3g} '
                   f'(min |tf| = {float(np.abs(tf).min()):.3g}); energy ratio - 1 = {energy(a) / energy(f) - 1:.3g}; '
-                  f'max |A_0 f - f| = {float(np.abs(a0 - g).max()):.3g}; max |A_-z A_z f - f| = {float(np.abs(b - g).max()):.3g}; '
-                  f'max |A_z A_z2 f - A_(z+z2) f| = {float(np.abs(s12 - s).max()):.3g}')
+                  f'A_0 f has shape {a0.shape} (f: {f.shape}); max |A_-z A_z g - g| = {float(np.abs(b - g).max()):.3g}; '
+                  f'max |A_z A_z2 g - A_(z+z2) g| = {float(np.abs(s12 - s).max()):.3g}; '
+                  f'max |A(tf=tf) g - A_z g| = {float(np.abs(btf - az).max()):.3g}')
         if not (um <= (1e-6 if et == ETOL32 else 1e-12)):
             return False, (f'transfer function is not unit modulus: max ||H|-1| = {um:.3g}, min |H| = {float(np.abs(tf).min()):.3g} '
                            f'(dx = {dx / (wvl / 1e3):.3g} wavelengths)'), {}
         ok, rel = eclose(energy(a), energy(f), et)
         if not ok:
             return False, f'free-space propagation changes the energy by a factor {energy(a) / energy(f):.12g}', {}
-        checks = [('A_0 f != f', a0, g, at), ('A_-z A_z f != f', b, g, at),
-                  ('Wavefront.free_space != angular_spectrum', wf.data, pr.angular_spectrum(g, wvl, dx, z, Q=1), at)]
+        # the literal clause "is the identity at zero distance": A_0 f == f
+        if a0.shape != f.shape:
+            if asp_known_pads(c):
+                known += 1           # exactly the known finding (output on the padded grid == pad2d(f, Q)); anything else is reported
+            else:
+                return False, f'A_0 f has shape {a0.shape} and is not pad2d(f, Q) either', {}
+        else:
+            ok, err = close(a0, f, at)
+            if not ok:
+                return False, f'A_0 f != f: max err {err:.3g}', {}
+        ok, rel = eclose(energy(btf), energy(g), et)
+        if not ok:
+            return False, f'angular_spectrum(f, tf=tf) changes the energy by a factor {energy(btf) / energy(g):.12g}', {}
+        checks = [('A_-z A_z f != f', b, g, at), ('angular_spectrum(f, tf=H(z)) != angular_spectrum(f, z)', btf, az, at),
+                  ('Wavefront.free_space(tf=H(z)) != angular_spectrum(f, z)', wt.data, az, at),
+                  ('Wavefront.free_space(dz, Q) != angular_spectrum(f, z, Q)', wq.data, a, at)]
         if at_add < 1e-3:       # beyond that the phases themselves are lost to rounding: additivity is not testable
             checks.append(('A_z A_z2 f != A_(z+z2) f', s12, s, at_add))
         for nm, x, y, tl in checks:
             ok, err = close(x, y, tl)
             if not ok:
                 return False, f'{nm}: max err {err:.3g} (tolerance {tl:.3g})', {}
-        return True, '', {'tf': tf, 'a': a, 'g': g, 'tol_model': max(at, 32 * eps * phase)}
+        if not (wq.dx == dx and wq.wavelength == wvl and wq.space == w0.space):
+            return False, f'Wavefront.free_space returned dx={wq.dx}, wavelength={wq.wavelength}, space={wq.space!r}', {}
+        return True, '', {'tf': tf, 'a': az, 'g': g, 'btf': btf, 'tol_model': max(at, 32 * eps * phase), 'known': known}
     finally:
         config.precision = 64
 
@@ -291,7 +381,9 @@ def gen_asp(r, shape):
         else:
             mag = unit * float(np.exp(r.uniform(np.log(300.0), np.log(1e6))))
         return mag if r.random() < 0.5 else -mag
-    return {'shape': list(shape), 'wvl': wvl, 'dx': dx, 'z': zz(), 'z2': zz(), 'Q': 1 if r.random() < 0.75 else 2,
+    return {'shape': list(shape), 'wvl': wvl, 'dx': dx, 'z': zz(), 'z2': zz(),
+            'Q': [1, 1, 1, 1.5, 2, 3, 'default'][int(r.integers(7))],
+            'samples_form': ['tuple', 'list', 'npint', 'int'][int(r.integers(4))],
             'dtype': 'complex128' if r.random() < 0.8 else 'float64', 'precision': 32 if r.random() < 0.12 else 64,
             'seed': int(r.integers(1 << 30)), 'regime': regime}
 
@@ -367,12 +459,14 @@ def _corr(ctx, ft, pr, config):
     for c in acases:
         m, n = c['shape']
         ctx.case('free_space', c, nontrivial=not (m == n == 1),
-                 tag=f'{c.get("regime", "?")}/{"z0" if c["z"] == 0 else "z+" if c["z"] > 0 else "z-"}/'
+                 tag=f'{c.get("regime", "?")}/{"z0" if c["z"] == 0 else "z+" if c["z"] > 0 else "z-"}/{c.get("samples_form")}/'
                      f'{"phase<=300" if asp_phase_max(c) <= 300 else "phase>300"}/Q{c["Q"]}/p{c["precision"]}')
         ok, detail, ex = pred_asp(c)
         if not ok:
             ctx.pred_fail('free_space', c, detail)
             continue
+        if ex.get('known'):
+            ctx.filtered_known['asp-pads-never-crops'] += ex['known']
         if m * n <= 81:
             g = ex['g']
             mm, nn = g.shape
@@ -380,7 +474,8 @@ def _corr(ctx, ft, pr, config):
                 hdr = f'{mm} {nn} {C.f2w(c["wvl"])} {C.f2w(c["dx"])} {C.f2w(c["z"])}'
                 lines.append(f'asptf {hdr}')
                 lines.append(f'asp {hdr} {arr2w(g)}')
-                todo.append(('asp', c, ex, (mm, nn), len(lines) - 2))
+                lines.append(f'asptfb {mm} {nn} {arr2w(ex["tf"])} {arr2w(g)}')
+                todo.append(('asp', c, ex, (mm, nn), len(lines) - 3))
 
     # ---- fftfreq table
     nmax = ctx.scale(40, 200)
@@ -415,6 +510,9 @@ def _corr(ctx, ft, pr, config):
             ok, err = close(ex['a'], a, tol)
             if not ok:
                 ctx.disagree('free_space', dict(c, what='angular_spectrum'), f'max |impl - model| = {err:.3g}', 'model asp')
+            ok, err = close(ex['btf'], w2arr(rep[at + 2], M, N), tol)
+            if not ok:
+                ctx.disagree('free_space', dict(c, what='angular_spectrum(tf=)'), f'max |impl - model| = {err:.3g}', 'model aspApplyG')
     for n in range(1, nmax + 1):
         ctx.case('fftfreq', {'n': n}, nontrivial=n > 1)
         mine = [int(x) for x in rep[ff_at + n - 1].split()]
@@ -464,10 +562,12 @@ def search(ctx, hints):
         for wvl, dx in ((0.6, 0.1), (0.6328, 1e-4), (1.55, 6e-4), (0.5, 5e-4), (1.0, 50.0)):
             unit = 2 * dx * dx / (np.pi * wvl / 1e3)
             for z, z2 in ((0.0, unit), (5.0 * unit, -2.0 * unit), (-3.0 * unit, 3.0 * unit), (1e5 * unit, unit)):
-                c = {'shape': [m, n], 'wvl': wvl, 'dx': dx, 'z': z, 'z2': z2, 'Q': 1, 'dtype': 'complex128', 'precision': 64, 'seed': 3}
-                ok, detail, _ = pred_asp(c)
-                if not ok:
-                    return {'item': 'free_space', 'input': c, 'detail': detail}
+                for Q in (1, 'default', 1.5):
+                    c = {'shape': [m, n], 'wvl': wvl, 'dx': dx, 'z': z, 'z2': z2, 'Q': Q, 'dtype': 'complex128', 'precision': 64,
+                         'seed': 3, 'samples_form': 'npint' if m == n else 'list'}
+                    ok, detail, _ = pred_asp(c)
+                    if not ok:
+                        return {'item': 'free_space', 'input': c, 'detail': detail}
     # seeded random
     pairs = band_pairs()
     for _ in range(ctx.scale(150, 1500)):
@@ -495,24 +595,28 @@ def replay(inp):
 MANIFEST_ENTRY = {
     'technique': 'Lean 4 proofs: root-of-unity orthogonality derived from the character laws (geometric sum), Gram matrix of the '
                  'centred/shifted DFT kernel = identity, abstract Parseval and left-inverse lemmas over finite sums, lifted to 2-D by '
-                 'separability; translator-generated glue; differential correspondence of the executable model with prysm',
+                 'separability; model routes parameterised by translator-generated flags / signs / wiring / coefficients; differential '
+                 'correspondence of the executable model with prysm',
     'text': ('PROVED for all inputs (every shape m x n of any parity, every padded/output shape, every shift, every field; kernel e any '
              'faithful character, conj any ring involution with conj(e t) = e(-t), nrm(1/N)^2 = 1/N; instantiated with exp(-2 pi i t), '
              'sqrt, complex conjugation): (1) orthogonality sum_k e(k d/L) = L [L | d]; (2) E E^H = 1 for the normalised centred / '
-             'shifted DFT kernel over a full period, and abstract Parseval from it; (3) focus and unfocus (fftshift.fft2.ifftshift with '
-             'norm=ortho, pad2d offset taken from the source) conserve energy INCLUDING the zero padding, for every padded shape >= the '
-             'input; pad2d alone conserves energy; unfocus(focus f) = f and focus(unfocus F) = F for every shape; (4) dft2/idft2 with '
-             'the wiring, exponent scalars and norms of the current source conserve energy onto the full band (M = m Qy, N = n Qx '
-             'integers >= m, n) and idft2(dft2 f) = f for every shift; the same round trip for iczt2(czt2 f) with both Bluestein legs '
-             'exactly as computed; (5) the angular-spectrum transfer function is a character in z (unit modulus, 1 at z=0, tf(z1+z2) = '
-             'tf(z1) tf(z2), tf(-z) tf(z) = 1) and the operator ifft2(fft2(f) tf) conserves energy, is the identity at z=0, composes '
-             'additively, and is undone at -z, for every shape, wavelength, spacing and distance (Q=1 grid). TRANSLATED from the source '
-             'and proved to match: pad2d offset and length, norm=ortho / shift order of focus and unfocus, matrix-DFT and chirp-Z glue '
-             '(as C01), the exponent coefficient of the transfer function (linear in z, wavelength/1000), (ky,kx) order, '
-             'angular_spectrum = ifft2(fft2 . tf), Wavefront.free_space delegation. MODELLED AND COMPARED each run: the NumPy execution '
-             'of all routes against the Lean model in Float, fftfreq index table, and every property predicate on the real outputs.'),
-    'note': ('Partial: for Q > 1 angular_spectrum pads and does not crop back, so identity / inverse / additivity are stated and checked '
-             'on the padded grid (the property text says the same); evanescent-wave physics is out of scope (the Fresnel transfer function '
-             'is what the code implements); scipy.fft enters with the contract "computes the DFT sum"; rounding is not covered (float64 '
-             'energies at 1e-10, float32 at 2e-4). Trusted: Lean kernel, Mathlib, translator, NumPy/SciPy primitives.'),
+             'shifted DFT kernel over a full period, and abstract Parseval from it; (3) focus and unfocus with the generated shift order / '
+             'norm / transform / pad offset conserve energy INCLUDING the zero padding, for every padded shape >= the input; pad2d alone '
+             'conserves energy; unfocus(focus(f,1),1) = f and focus(unfocus(F,1),1) = F for every shape; (4) dft2 / idft2 with the '
+             'generated kernel sign, flags, wiring, scalars and norms conserve energy onto the full band (M = m Qy, N = n Qx integers >= '
+             'm, n) and idft2(dft2 f) = f for every shift; the same (energy and round trip) for czt2 / iczt2 as interpreters over the '
+             'generated statement list, signs, glue, wiring and constants; (5) the transfer function built from the GENERATED coefficient '
+             '(additive in z: the one fact about the source these laws need), signs and axis order is a character in z (unit modulus at '
+             'EVERY sample - the translator also certifies that no sample is overwritten/masked after the exponential -, 1 at z=0, '
+             'tf(z1+z2) = tf(z1) tf(z2), tf(-z) tf(z) = 1) and equals the model one; the operator ifft2(fft2(f) tf) with the generated '
+             'norm flags of BOTH branches of angular_spectrum conserves energy, is the identity at z=0, composes additively and is undone '
+             'at -z on the grid it works on; the tf= branch conserves energy for every unit-modulus tf and equals the z branch; for Q != 1 '
+             'the output at z=0 is pad2d(f,Q) (theorem asp_padded_at_zero_is_pad = the known finding). ONLY COMPARED (no theorem): '
+             'unfocus(focus(f,Q),1) = pad2d(f,Q) for Q > 1; the Wavefront wrappers (spaces, dx round trip); fftfreq table.'),
+    'note': ('Known finding asp-pads-never-crops: angular_spectrum with Q != 1 (default Q=2) returns the padded grid and never crops, so '
+             'the literal "identity at zero distance / undoes itself / composes additively" hold on the padded grid only; no safe repair '
+             '(cropping back loses the diffracted energy). Evanescent-wave physics is out of scope (the Fresnel transfer function is what '
+             'the code implements); scipy.fft enters with the contract "computes the DFT sum"; rounding is not covered (float64 energies '
+             'at 1e-10, arrays 1e-9; float32 2e-4 / max(5e-5, 5e-7 n), comparisons involving two evaluations of the exponent widened by '
+             '16-32 eps x the largest phase on the band). Trusted: Lean kernel, Mathlib, translator, NumPy/SciPy primitives.'),
 }
